@@ -116,14 +116,16 @@ Fixpoint pushqs (npr : nat) (p : list op) : list nat :=
   match p with
   | [] => []
   | OPush q _ _ :: r => (q mod npr) :: pushqs npr r
-  | _ :: r => pushqs npr r
+  | ORecyc q _ :: r => (q mod npr) :: pushqs npr r
+  | OPop :: r => pushqs npr r
   end.
 
 Fixpoint pushonly (p : list op) : Prop :=
   match p with
   | [] => True
   | OPush _ _ _ :: r => pushonly r
-  | _ => False
+  | ORecyc _ _ :: r => pushonly r
+  | OPop :: _ => False
   end.
 
 Record wf (npr : nat) (progs : list (list op)) : Prop := {
@@ -145,11 +147,12 @@ Definition pcl (T : tst) : list nat :=
 Definition own_list (T : tst) : list nat := pcl T ++ pushed (prog T).
 
 (* thread T is (or will be) the producer of queue q *)
+Definition claiming (p : pcT) : bool := match p with PTake => true | _ => pushing p end.
 Definition uses (npr : nat) (T : tst) (q : nat) : Prop :=
-  (pushing (pc T) = true /\ qi T = q) \/ In q (pushqs npr (prog T)).
+  (claiming (pc T) = true /\ qi T = q) \/ In q (pushqs npr (prog T)).
 
 Definition producer_pc (p : pcT) : Prop :=
-  match p with PData | PNull | PLoadTail | PStoreTail | PLink | Fin => True | _ => False end.
+  match p with PTake | PData | PNull | PLoadTail | PStoreTail | PLink | Fin => True | _ => False end.
 
 Definition linkingN (s : st) (n : nat) : Prop :=
   exists t, pc (thr s t) = PLink /\ prev (thr s t) = n.
@@ -220,6 +223,10 @@ Record GInv (x : ist) : Prop := {
   g_own_dj : forall t u n, In n (own_list (thr (base x) t)) -> In n (own_list (thr (base x) u)) -> t = u;
   g_own_nq : forall t n, In n (own_list (thr (base x) t)) ->
                          n <> 0 /\ forall q i, q < np (base x) -> lo x q <= i <= hi x q -> nodeat x q i <> n;
+  g_fr_nd : NoDup (freed (base x));
+  g_fr_nq : forall n, In n (freed (base x)) ->
+                      n <> 0 /\ forall q i, q < np (base x) -> lo x q <= i <= hi x q -> nodeat x q i <> n;
+  g_fr_dj : forall t n, In n (own_list (thr (base x) t)) -> ~ In n (freed (base x));
   g_plog : forall q, q < np (base x) -> ptag q (plog x) = map (valat x q) (seq 1 (hi x q));
   g_qlog : forall q, q < np (base x) -> qtag q (qlog x) = map (valat x q) (seq 1 (nret x q))
 }.
@@ -232,48 +239,50 @@ Ltac thr_cases u t :=
 Lemma own_next_op' npr T : own_list (next_op npr T) = pushed (prog T).
 Proof.
   unfold own_list, next_op, pcl.
-  destruct (prog T) as [|[q n v|] r]; cbn [pc prog pushing popping pushed node hd app]; reflexivity.
+  destruct (prog T) as [|[q n v| |q v] r]; cbn [pc prog pushing popping pushed node hd app]; reflexivity.
 Qed.
 
 Lemma own_next_op npr T : pcl T = [] -> own_list (next_op npr T) = own_list T.
 Proof. intros E. rewrite own_next_op'. unfold own_list. rewrite E. reflexivity. Qed.
 
 Lemma next_op_pc npr T :
-  pc (next_op npr T) = PData \/ (pc (next_op npr T) = CRead1 /\ it (next_op npr T) = 0) \/ pc (next_op npr T) = Fin.
+  pc (next_op npr T) = PData \/ (pc (next_op npr T) = CRead1 /\ it (next_op npr T) = 0) \/ pc (next_op npr T) = Fin \/
+  pc (next_op npr T) = PTake.
 Proof.
-  unfold next_op. destruct (prog T) as [|[q n v|] r]; cbn; auto.
+  unfold next_op. destruct (prog T) as [|[q n v| |q v] r]; cbn; auto.
 Qed.
 
 Lemma next_op_ok x T : 0 < np (base x) -> local_ok x (next_op (np (base x)) T).
 Proof.
-  intros Hnp. unfold local_ok. destruct (next_op_pc (np (base x)) T) as [E|[[E E2]|E]]; rewrite E; try exact I.
+  intros Hnp. unfold local_ok. destruct (next_op_pc (np (base x)) T) as [E|[[E E2]|[E|E]]]; rewrite E; try exact I.
   rewrite E2. split; [exact Hnp|]. intros H; contradiction.
 Qed.
 
 Lemma next_op_cons npr T :
   pushonly (prog T) -> producer_pc (pc (next_op npr T)) /\ pushonly (prog (next_op npr T)).
 Proof.
-  unfold next_op. destruct (prog T) as [|[q n v|] r]; cbn; tauto.
+  unfold next_op. destruct (prog T) as [|[q n v| |q v] r]; cbn; tauto.
 Qed.
 
 Lemma next_op_not_plink npr T : pc (next_op npr T) <> PLink.
-Proof. destruct (next_op_pc npr T) as [E|[[E _]|E]]; rewrite E; discriminate. Qed.
+Proof. destruct (next_op_pc npr T) as [E|[[E _]|[E|E]]]; rewrite E; discriminate. Qed.
 
 Lemma next_op_popping npr T : popping (pc (next_op npr T)) = false.
-Proof. destruct (next_op_pc npr T) as [E|[[E _]|E]]; rewrite E; reflexivity. Qed.
+Proof. destruct (next_op_pc npr T) as [E|[[E _]|[E|E]]]; rewrite E; reflexivity. Qed.
 
 Lemma next_op_uses npr T q : uses npr (next_op npr T) q -> In q (pushqs npr (prog T)).
 Proof.
-  unfold uses, next_op. destruct (prog T) as [|[q' n v|] r]; cbn [pc prog pushing qi pushqs].
+  unfold uses, next_op. destruct (prog T) as [|[q' n v| |q' v] r]; cbn [pc prog claiming pushing qi pushqs].
   - intros [[H _]|H]; [discriminate|exact H].
   - intros [[_ H]|H]; [left; exact H|right; exact H].
   - intros [[H _]|H]; [discriminate|exact H].
+  - intros [[_ H]|H]; [left; exact H|right; exact H].
 Qed.
 
 Lemma next_op_qi npr T : 0 < npr -> qi T < npr -> qi (next_op npr T) < npr.
 Proof.
-  intros Hn Hq. unfold next_op. destruct (prog T) as [|[q' n v|] r]; cbn [qi]; auto.
-  apply Nat.mod_upper_bound. lia.
+  intros Hn Hq. unfold next_op. destruct (prog T) as [|[q' n v| |q' v] r]; cbn [qi]; auto;
+    apply Nat.mod_upper_bound; lia.
 Qed.
 
 Lemma linkingN_upd s s' t T' n :
@@ -338,7 +347,7 @@ Proof.
 Qed.
 
 Lemma pushed_pushqs_nil npr p : pushqs npr p = [] -> pushed p = [].
-Proof. induction p as [|[q n v|] r IH]; cbn; auto. discriminate. Qed.
+Proof. induction p as [|[q n v| |q v] r IH]; cbn; auto; discriminate. Qed.
 
 Lemma init_inv npr progs : wf npr progs -> GInv (iinit npr progs).
 Proof.
@@ -359,23 +368,26 @@ Proof.
   - intros t u n. rewrite !Own. apply Wd.
   - intros t n. rewrite Own. intros H. specialize (Wz t n H). split; [lia|].
     intros q i Hq Hi. lia.
+  - cbn. constructor.
 Qed.
 
 (* ------------------------------------------------------------------ *)
 (* Steps that change only thread t's private state, memory cells of nodes
    that t owns and (consumer only) the counter; the per-queue ghost
    sequences are unchanged. *)
-Lemma frame_step x t T' cnt' nxt' dat' nret' c0' vis' qlog' :
+Lemma frame_stepF x t T' cnt' nxt' dat' fr' nret' c0' vis' qlog' :
   GInv x ->
   let s := base x in
   let s' := {| counter := cnt'; np := np s; heads := heads s; tails := tails s; nxt := nxt'; dat := dat';
-               thr := upd (thr s) t T'; nthr := nthr s |} in
+               freed := fr'; thr := upd (thr s) t T'; nthr := nthr s |} in
   let x' := {| base := s'; nodeat := nodeat x; valat := valat x; hi := hi x; lo := lo x; nret := nret';
                c0 := c0'; visits := vis'; plog := plog x; qlog := qlog' |} in
   (forall m, nxt' m <> nxt s m -> In m (own_list (thr s t))) ->
   (forall m, dat' m <> dat s m -> In m (own_list (thr s t))) ->
   pc (thr s t) <> PLink -> pc T' <> PLink ->
-  NoDup (own_list T') -> incl (own_list T') (own_list (thr s t)) ->
+  NoDup (own_list T') -> NoDup fr' ->
+  (forall n, In n (own_list T') \/ In n fr' -> In n (own_list (thr s t)) \/ In n (freed s)) ->
+  (forall n, In n (own_list T') -> ~ In n fr') ->
   (t <> 0 -> producer_pc (pc T') /\ pushonly (prog T')) ->
   (forall q, uses (np s) T' q -> uses (np s) (thr s t) q) ->
   qi T' < np s ->
@@ -385,9 +397,9 @@ Lemma frame_step x t T' cnt' nxt' dat' nret' c0' vis' qlog' :
   local_ok x' T' ->
   GInv x'.
 Proof.
-  intros G s s' x' Hn Hd A B Nd Inc Cons Us Qi Ret Ql Cnt Loc.
-  destruct G as [Gnp Go Gh Gt Gi Gz G0 Gl Gla Gd Gloc Gu Gc Gpr Gqi Gr Ond Odj Onq Gp Gq].
-  fold s in Gnp, Go, Gh, Gt, Gi, Gz, G0, Gl, Gla, Gd, Gloc, Gu, Gc, Gpr, Gqi, Gr, Ond, Odj, Onq, Gp, Gq.
+  intros G s s' x' Hn Hd A B Nd NdF Pool Dj Cons Us Qi Ret Ql Cnt Loc.
+  destruct G as [Gnp Go Gh Gt Gi Gz G0 Gl Gla Gd Gloc Gu Gc Gpr Gqi Gr Ond Odj Onq Fnd Fnq Fdj Gp Gq].
+  fold s in Gnp, Go, Gh, Gt, Gi, Gz, G0, Gl, Gla, Gd, Gloc, Gu, Gc, Gpr, Gqi, Gr, Ond, Odj, Onq, Fnd, Fnq, Fdj, Gp, Gq.
   assert (Ethr : thr s' = upd (thr s) t T') by reflexivity.
   assert (NxW : forall q i, q < np s -> lo x q <= i <= hi x q -> nxt' (nodeat x q i) = nxt s (nodeat x q i)).
   { intros q i Hq Hi. destruct (Nat.eq_dec (nxt' (nodeat x q i)) (nxt s (nodeat x q i))) as [|Ne]; auto.
@@ -406,7 +418,7 @@ Proof.
   assert (CntU : forall u, u <> t -> ~ producer_pc (pc (thr s u)) ->
                  cnt' = counter s /\ c0' = c0 x /\ vis' = visits x).
   { intros u Hu Np. destruct Cnt as [C|C]; auto. exfalso. apply Np. apply Gc. congruence. }
-  constructor; cbn [base nodeat valat hi lo nret c0 visits plog qlog x']; cbn [counter np heads tails nxt dat thr s'].
+  constructor; cbn [base nodeat valat hi lo nret c0 visits plog qlog x']; cbn [counter np heads tails nxt dat freed thr s'].
   - exact Gnp.
   - exact Go.
   - exact Gh.
@@ -423,7 +435,7 @@ Proof.
     + rewrite upd_same. exact Loc.
     + rewrite upd_other by assumption. assert (Lu := Gloc u). assert (Qu := Gqi u). unfold local_ok, cnt_ok in *.
       destruct (pc (thr s u)) eqn:Hu;
-        cbn [base nodeat valat hi lo nret c0 visits x']; cbn [counter np heads tails nxt dat s']; auto.
+        cbn [base nodeat valat hi lo nret c0 visits x']; cbn [counter np heads tails nxt dat freed s']; auto.
       * rewrite (DtO u) by (auto; apply in_own_pushing; rewrite Hu; reflexivity). exact Lu.
       * rewrite (DtO u), (NxO u) by (auto; apply in_own_pushing; rewrite Hu; reflexivity). exact Lu.
       * rewrite (DtO u), (NxO u) by (auto; apply in_own_pushing; rewrite Hu; reflexivity). exact Lu.
@@ -446,14 +458,47 @@ Proof.
   - exact Ret.
   - intros u. thr_cases u t; auto.
   - intros u v n. thr_cases u t; thr_cases v t; intros H1 H2; auto.
-    + apply Inc in H1. apply (Odj t v n); auto.
-    + apply Inc in H2. apply (Odj u t n); auto.
+    + destruct (Pool n (or_introl H1)) as [H|H]; [apply (Odj t v n); auto|exfalso; exact (Fdj v n H2 H)].
+    + destruct (Pool n (or_introl H2)) as [H|H]; [apply (Odj u t n); auto|exfalso; exact (Fdj u n H1 H)].
     + apply (Odj u v n); auto.
   - intros u n. thr_cases u t; intros H1.
-    + apply Inc in H1. apply (Onq t n); auto.
+    + destruct (Pool n (or_introl H1)) as [H|H]; [apply (Onq t n); auto|apply Fnq; auto].
     + apply (Onq u n); auto.
+  - exact NdF.
+  - intros n H1. destruct (Pool n (or_intror H1)) as [H|H]; [apply (Onq t n); auto|apply Fnq; auto].
+  - intros u n. thr_cases u t; intros H1 H2.
+    + exact (Dj n H1 H2).
+    + destruct (Pool n (or_intror H2)) as [H|H]; [apply n0; apply (Odj u t n); auto|exact (Fdj u n H1 H)].
   - exact Gp.
   - exact Ql.
+Qed.
+
+(* the same with the free stack unchanged *)
+Lemma frame_step x t T' cnt' nxt' dat' nret' c0' vis' qlog' :
+  GInv x ->
+  let s := base x in
+  let s' := {| counter := cnt'; np := np s; heads := heads s; tails := tails s; nxt := nxt'; dat := dat';
+               freed := freed s; thr := upd (thr s) t T'; nthr := nthr s |} in
+  let x' := {| base := s'; nodeat := nodeat x; valat := valat x; hi := hi x; lo := lo x; nret := nret';
+               c0 := c0'; visits := vis'; plog := plog x; qlog := qlog' |} in
+  (forall m, nxt' m <> nxt s m -> In m (own_list (thr s t))) ->
+  (forall m, dat' m <> dat s m -> In m (own_list (thr s t))) ->
+  pc (thr s t) <> PLink -> pc T' <> PLink ->
+  NoDup (own_list T') -> incl (own_list T') (own_list (thr s t)) ->
+  (t <> 0 -> producer_pc (pc T') /\ pushonly (prog T')) ->
+  (forall q, uses (np s) T' q -> uses (np s) (thr s t) q) ->
+  qi T' < np s ->
+  (forall q, q < np s -> ret_ok (upd (thr s) t T' 0) nret' (lo x) q) ->
+  (forall q, q < np s -> qtag q qlog' = map (valat x q) (seq 1 (nret' q))) ->
+  ((cnt' = counter s /\ c0' = c0 x /\ vis' = visits x) \/ t = 0) ->
+  local_ok x' T' ->
+  GInv x'.
+Proof.
+  intros G s s' x' Hn Hd A B Nd Inc Cons Us Qi Ret Ql Cnt Loc.
+  apply (frame_stepF x t T' cnt' nxt' dat' (freed s) nret' c0' vis' qlog' G); auto.
+  - apply (g_fr_nd x G).
+  - intros n [H|H]; [left; apply Inc; exact H|right; exact H].
+  - intros n H. apply (g_fr_dj x G t). apply Inc. exact H.
 Qed.
 
 (* ------------------------------------------------------------------ *)
@@ -462,7 +507,7 @@ Lemma pstore_inv x t :
   GInv x -> pc (thr (base x) t) = PStoreTail ->
   let s := base x in let T := thr s t in let q := qi T in
   let s' := {| counter := counter s; np := np s; heads := heads s; tails := upd (tails s) q (node T);
-               nxt := nxt s; dat := dat s;
+               nxt := nxt s; dat := dat s; freed := freed s;
                thr := upd (thr s) t (with_pc T PLink); nthr := nthr s |} in
   GInv {| base := s'; nodeat := upd2 (nodeat x) q (S (hi x q)) (node T);
           valat := upd2 (valat x) q (S (hi x q)) (arg T);
@@ -471,8 +516,8 @@ Lemma pstore_inv x t :
           plog := plog x ++ [(t, q, arg T)]; qlog := qlog x |}.
 Proof.
   intros G Hpc s T q s'.
-  destruct G as [Gnp Go Gh Gt Gi Gz G0 Gl Gla Gd Gloc Gu Gc Gpr Gqi Gr Ond Odj Onq Gp Gq].
-  fold s in Gnp, Go, Gh, Gt, Gi, Gz, G0, Gl, Gla, Gd, Gloc, Gu, Gc, Gpr, Gqi, Gr, Ond, Odj, Onq, Gp, Gq.
+  destruct G as [Gnp Go Gh Gt Gi Gz G0 Gl Gla Gd Gloc Gu Gc Gpr Gqi Gr Ond Odj Onq Fnd Fnq Fdj Gp Gq].
+  fold s in Gnp, Go, Gh, Gt, Gi, Gz, G0, Gl, Gla, Gd, Gloc, Gu, Gc, Gpr, Gqi, Gr, Ond, Odj, Onq, Fnd, Fnq, Fdj, Gp, Gq.
   fold s T in Hpc.
   set (TL := with_pc T PLink) in *.
   assert (Ethr : thr s' = upd (thr s) t TL) by reflexivity.
@@ -524,7 +569,7 @@ Proof.
     - intros [u [Hp Hh]]. left. exists u. repeat split; auto. intros ->. fold T in Hp. congruence. }
   assert (Nrl : forall q', q' < np s -> nret x q' <= lo x q').
   { intros q' Hq. specialize (Gr q' Hq). unfold ret_ok in Gr. destruct (_ && _); lia. }
-  constructor; cbn [base nodeat valat hi lo nret c0 visits plog qlog]; cbn [counter np heads tails nxt dat thr s'];
+  constructor; cbn [base nodeat valat hi lo nret c0 visits plog qlog]; cbn [counter np heads tails nxt dat freed thr s'];
     fold na' va' hi'.
   - exact Gnp.
   - intros q' Hq. specialize (Go q' Hq). destruct (Nat.eq_dec q' q) as [->|Nq]; [rewrite HiQ|rewrite HiX by assumption]; lia.
@@ -562,7 +607,7 @@ Proof.
     + rewrite upd_other by assumption. assert (Lu := Gloc u). assert (Qu := Gqi u). unfold local_ok, cnt_ok in *.
       assert (Gou := Go _ Qu).
       destruct (pc (thr s u)) eqn:Hu;
-        cbn [base nodeat valat hi lo nret c0 visits]; cbn [counter np heads tails nxt dat s']; fold na' va' hi'; auto.
+        cbn [base nodeat valat hi lo nret c0 visits]; cbn [counter np heads tails nxt dat freed s']; fold na' va' hi'; auto.
       * (* PStoreTail *) destruct Lu as (L1 & L2 & L3). repeat split; auto. rewrite upd_other; auto.
         intros E. apply (Only u Hne). left. rewrite Hu. auto.
       * (* PLink *) destruct Lu as [i (L1 & L2 & L3 & L4)]. exists i.
@@ -612,6 +657,14 @@ Proof.
     + rewrite NaS. intros E. subst n. destruct (Nat.eq_dec u t) as [->|Hne].
       * rewrite upd_same in Hin. exact (NotL Hin).
       * apply Hne. apply (Odj u t (node T)); auto.
+  - exact Fnd.
+  - intros n Hn. destruct (Fnq n Hn) as [Q1 Q2]. split; auto.
+    intros q' i Hq Hi. destruct (HiW q' i Hq ltac:(lia)) as [Bi|[-> ->]].
+    + rewrite NaW by auto. apply Q2; auto; lia.
+    + rewrite NaS. intros E. subst n. exact (Fdj t _ OwnT Hn).
+  - intros u n. thr_cases u t; intros H1.
+    + apply IncL in H1. apply (Fdj t n H1).
+    + apply (Fdj u n H1).
   - intros q' Hq. destruct (Nat.eq_dec q' q) as [->|Nq].
     + rewrite ptag_snoc_same, HiQ, seq_snoc, map_app. cbn [map].
       replace (1 + hi x q) with (S (hi x q)) by lia. rewrite VaS. f_equal.
@@ -628,14 +681,14 @@ Lemma plink_inv x t :
   GInv x -> pc (thr (base x) t) = PLink ->
   let s := base x in let T := thr s t in
   let s' := {| counter := counter s; np := np s; heads := heads s; tails := tails s;
-               nxt := upd (nxt s) (prev T) (node T); dat := dat s;
+               nxt := upd (nxt s) (prev T) (node T); dat := dat s; freed := freed s;
                thr := upd (thr s) t (next_op (np s) T); nthr := nthr s |} in
   GInv {| base := s'; nodeat := nodeat x; valat := valat x; hi := hi x; lo := lo x; nret := nret x;
           c0 := c0 x; visits := visits x; plog := plog x; qlog := qlog x |}.
 Proof.
   intros G Hpc s T s'.
-  destruct G as [Gnp Go Gh Gt Gi Gz G0 Gl Gla Gd Gloc Gu Gc Gpr Gqi Gr Ond Odj Onq Gp Gq].
-  fold s in Gnp, Go, Gh, Gt, Gi, Gz, G0, Gl, Gla, Gd, Gloc, Gu, Gc, Gpr, Gqi, Gr, Ond, Odj, Onq, Gp, Gq.
+  destruct G as [Gnp Go Gh Gt Gi Gz G0 Gl Gla Gd Gloc Gu Gc Gpr Gqi Gr Ond Odj Onq Fnd Fnq Fdj Gp Gq].
+  fold s in Gnp, Go, Gh, Gt, Gi, Gz, G0, Gl, Gla, Gd, Gloc, Gu, Gc, Gpr, Gqi, Gr, Ond, Odj, Onq, Fnd, Fnq, Fdj, Gp, Gq.
   fold s T in Hpc.
   set (q := qi T).
   assert (Qn : q < np s) by (apply Gqi).
@@ -655,7 +708,7 @@ Proof.
     destruct (Gi q' q i k Hq Qn Hi ltac:(lia) E). congruence. }
   assert (NxO : forall u m, In m (own_list (thr s u)) -> upd (nxt s) (prev T) (node T) m = nxt s m).
   { intros u m Hm. apply upd_other. rewrite Lk2. intros E. destruct (Onq u m Hm) as [_ Q]. apply (Q q k); auto; lia. }
-  constructor; cbn [base nodeat valat hi lo nret c0 visits plog qlog]; cbn [counter np heads tails nxt dat thr s'].
+  constructor; cbn [base nodeat valat hi lo nret c0 visits plog qlog]; cbn [counter np heads tails nxt dat freed thr s'].
   - exact Gnp.
   - exact Go.
   - exact Gh.
@@ -685,7 +738,7 @@ Proof.
       exact Gnp.
     + rewrite upd_other by assumption. assert (Lu := Gloc u). unfold local_ok, cnt_ok in *.
       destruct (pc (thr s u)) eqn:Hu;
-        cbn [base nodeat valat hi lo nret c0 visits]; cbn [counter np heads tails nxt dat s']; auto.
+        cbn [base nodeat valat hi lo nret c0 visits]; cbn [counter np heads tails nxt dat freed s']; auto.
       * rewrite (NxO u) by (apply in_own_pushing; rewrite Hu; reflexivity). exact Lu.
       * rewrite (NxO u) by (apply in_own_pushing; rewrite Hu; reflexivity). exact Lu.
       * destruct Lu as (L1 & L2 & L3 & L4). repeat split; auto. rewrite Lk. tauto.
@@ -708,6 +761,9 @@ Proof.
   - intros u. thr_cases u t; auto. rewrite OL. apply Ond.
   - intros u v n. thr_cases u t; thr_cases v t; rewrite ?OL; apply Odj.
   - intros u n. thr_cases u t; rewrite ?OL; apply Onq.
+  - exact Fnd.
+  - exact Fnq.
+  - intros u n. thr_cases u t; rewrite ?OL; apply Fdj.
   - exact Gp.
   - exact Gq.
 Qed.
@@ -719,15 +775,15 @@ Lemma qsethead_inv x t :
   GInv x -> pc (thr (base x) t) = QSetHead ->
   let s := base x in let T := thr s t in let q := qi T in
   let s' := {| counter := counter s; np := np s; heads := upd (heads s) q (hn T); tails := tails s;
-               nxt := nxt s; dat := dat s;
+               nxt := nxt s; dat := dat s; freed := freed s;
                thr := upd (thr s) t (with_pc T QRead); nthr := nthr s |} in
   GInv {| base := s'; nodeat := nodeat x; valat := valat x; hi := hi x;
           lo := upd (lo x) q (S (lo x q)); nret := nret x;
           c0 := c0 x; visits := visits x; plog := plog x; qlog := qlog x |}.
 Proof.
   intros G Hpc s T q s'.
-  destruct G as [Gnp Go Gh Gt Gi Gz G0 Gl Gla Gd Gloc Gu Gc Gpr Gqi Gr Ond Odj Onq Gp Gq].
-  fold s in Gnp, Go, Gh, Gt, Gi, Gz, G0, Gl, Gla, Gd, Gloc, Gu, Gc, Gpr, Gqi, Gr, Ond, Odj, Onq, Gp, Gq.
+  destruct G as [Gnp Go Gh Gt Gi Gz G0 Gl Gla Gd Gloc Gu Gc Gpr Gqi Gr Ond Odj Onq Fnd Fnq Fdj Gp Gq].
+  fold s in Gnp, Go, Gh, Gt, Gi, Gz, G0, Gl, Gla, Gd, Gloc, Gu, Gc, Gpr, Gqi, Gr, Ond, Odj, Onq, Fnd, Fnq, Fdj, Gp, Gq.
   fold s T in Hpc.
   assert (Qn : q < np s) by (apply Gqi).
   assert (T0 : t = 0).
@@ -751,7 +807,7 @@ Proof.
   { intros q' i Hi. destruct (Nat.eq_dec q' q) as [->|Nq]; [rewrite LoQ in Hi|rewrite LoX in Hi by assumption].
     - split; [lia|]. intros E. inversion E. lia.
     - split; [lia|]. intros E. inversion E. contradiction. }
-  constructor; cbn [base nodeat valat hi lo nret c0 visits plog qlog]; cbn [counter np heads tails nxt dat thr s'];
+  constructor; cbn [base nodeat valat hi lo nret c0 visits plog qlog]; cbn [counter np heads tails nxt dat freed thr s'];
     fold lo'.
   - exact Gnp.
   - intros q' Hq. specialize (Go q' Hq). destruct (Nat.eq_dec q' q) as [->|Nq]; [rewrite LoQ|rewrite LoX by assumption]; lia.
@@ -773,7 +829,7 @@ Proof.
     + rewrite upd_other by assumption. assert (Lu := Gloc u). unfold local_ok, cnt_ok in *.
       destruct (Gc u ltac:(lia)) as [Pu _].
       destruct (pc (thr s u)) eqn:Hu;
-        cbn [base nodeat valat hi lo nret c0 visits]; cbn [counter np heads tails nxt dat s']; fold lo'; auto;
+        cbn [base nodeat valat hi lo nret c0 visits]; cbn [counter np heads tails nxt dat freed s']; fold lo'; auto;
         try (destruct Pu; fail).
       destruct Lu as [i (A & B & C & D)]. exists i. repeat split; auto; try lia.
       destruct (Nat.eq_dec (qi (thr s u)) q) as [E|Nq]; [|rewrite LoX by assumption; lia].
@@ -812,6 +868,13 @@ Proof.
         destruct (LoW q' i ltac:(lia)). lia.
     + destruct (Onq u n H1) as [Q1 Q2]. split; auto. intros q' i Hq Hi. apply Q2; auto.
       destruct (LoW q' i ltac:(lia)). lia.
+  - exact Fnd.
+  - intros n Hn. destruct (Fnq n Hn) as [Q1 Q2]. split; auto. intros q' i Hq Hi. apply Q2; auto.
+    destruct (LoW q' i ltac:(lia)). lia.
+  - intros u n. thr_cases u t; intros H1.
+    + destruct (InR n H1) as [->|H1']; [|apply (Fdj t n H1')].
+      intros Hf. destruct (Fnq _ Hf) as [_ Q]. apply (Q q (lo x q) Qn); [specialize (Go q Qn); lia|congruence].
+    + apply (Fdj u n H1).
   - exact Gp.
   - exact Gq.
 Qed.
@@ -835,11 +898,11 @@ Proof.
 Qed.
 
 Lemma uses_same npr T' T q :
-  pushing (pc T') = pushing (pc T) -> qi T' = qi T -> prog T' = prog T -> uses npr T' q -> uses npr T q.
+  claiming (pc T') = claiming (pc T) -> qi T' = qi T -> prog T' = prog T -> uses npr T' q -> uses npr T q.
 Proof. unfold uses. intros E1 E2 E3. rewrite E1, E2, E3. auto. Qed.
 
 Lemma uses_nopush npr T' T q :
-  pushing (pc T') = false -> prog T' = prog T -> uses npr T' q -> uses npr T q.
+  claiming (pc T') = false -> prog T' = prog T -> uses npr T' q -> uses npr T q.
 Proof. unfold uses. intros E1 E3. rewrite E1, E3. intros [[H _]|H]; [discriminate|right; exact H]. Qed.
 
 Lemma vis_snoc c npr k : vis c npr (S k) = vis c npr k ++ [(c + k) mod npr].
@@ -864,7 +927,49 @@ Proof.
   assert (RK2 : forall T' q, popping (pc T') = popping (pc T) -> qi T' = qi T -> q < np (base x) ->
                 ret_ok (upd (thr (base x)) t T' 0) (nret x) (lo x) q).
   { intros T' q E1 E2 Hq. apply ret_keep2; auto; [rewrite <- HT; exact E1|rewrite <- HT; exact E2|apply (g_ret x G); exact Hq]. }
+  assert (OTn : pushing (pc T) = false -> popping (pc T) = false -> own_list T = pushed (prog T)).
+  { intros E1 E2. unfold own_list, pcl. rewrite E1, E2. reflexivity. }
   destruct (pc T) eqn:Hpc; cbn [fst].
+  - (* PTake *)
+    destruct (freed (base x)) as [|n fr] eqn:Hfr; cbn [fst].
+    + apply (frame_step x t (next_op (np (base x)) T) (counter (base x)) (nxt (base x)) (dat (base x)) (nret x)
+               (c0 x) (visits x) (qlog x) G); rewrite <- ?HT.
+      * nochange.
+      * nochange.
+      * rewrite Hpc; discriminate.
+      * apply next_op_not_plink.
+      * rewrite own_next_op; auto. unfold pcl. rewrite Hpc. reflexivity.
+      * rewrite own_next_op; [apply incl_refl|]. unfold pcl. rewrite Hpc. reflexivity.
+      * intros Ht. apply next_op_cons. apply (CT Ht).
+      * intros q H. right. apply next_op_uses. exact H.
+      * apply next_op_qi; auto.
+      * intros q Hq. apply RK1; auto; try apply next_op_popping; rewrite ?Hpc; reflexivity.
+      * apply (g_qlog x G).
+      * left; auto.
+      * match goal with |- local_ok ?X _ => apply (next_op_ok X T) end. exact Np.
+    + assert (Fnd := g_fr_nd x G). assert (Fdj := g_fr_dj x G t). rewrite Hfr in Fnd, Fdj. rewrite <- HT in Fdj.
+      rewrite (OTn eq_refl eq_refl) in OT, Fdj.
+      match goal with |- GInv {| base := {| thr := upd _ _ ?X |} |} =>
+        apply (frame_stepF x t X (counter (base x)) (nxt (base x)) (dat (base x)) fr (nret x)
+                 (c0 x) (visits x) (qlog x) G); rewrite <- ?HT end.
+      * nochange.
+      * nochange.
+      * rewrite Hpc; discriminate.
+      * cbn; discriminate.
+      * change (NoDup (n :: pushed (prog T))). constructor; auto. intros H. apply (Fdj n H). left; reflexivity.
+      * inversion Fnd; auto.
+      * rewrite Hfr, (OTn eq_refl eq_refl).
+        change (forall m, In m (n :: pushed (prog T)) \/ In m fr -> In m (pushed (prog T)) \/ In m (n :: fr)).
+        intros m [[->|H]|H]; [right; left; reflexivity|left; exact H|right; right; exact H].
+      * change (forall m, In m (n :: pushed (prog T)) -> ~ In m fr).
+        intros m [<-|H] Hf; [inversion Fnd; auto|apply (Fdj m H); right; exact Hf].
+      * intros Ht. destruct (CT Ht). split; [exact I|assumption].
+      * intros q. apply uses_same; try reflexivity. cbn. rewrite Hpc. reflexivity.
+      * exact QT.
+      * intros q Hq. apply RK2; auto; cbn; rewrite ?Hpc; reflexivity.
+      * apply (g_qlog x G).
+      * left; auto.
+      * exact I.
   - (* PData *)
     apply (frame_step x t (with_pc T PNull) (counter (base x)) (nxt (base x))
              (upd (dat (base x)) (node T) (arg T)) (nret x) (c0 x) (visits x) (qlog x) G); rewrite <- ?HT.
@@ -1120,15 +1225,21 @@ Proof.
     assert (OTT : own_list T = hd T :: pushed (prog T)).
     { unfold own_list, pcl. rewrite Hpc. reflexivity. }
     assert (Rt := g_ret x G). rewrite <- T0, <- HT in Rt. unfold ret_ok in Rt. rewrite Hpc in Rt. cbn [popping andb] in Rt.
-    apply (frame_step x t (next_op (np (base x)) T) (counter (base x)) (nxt (base x)) (dat (base x))
+    assert (Fnd := g_fr_nd x G). assert (Fdj := g_fr_dj x G t). rewrite <- HT, OTT in Fdj. rewrite OTT in OT.
+    apply (frame_stepF x t (next_op (np (base x)) T) (counter (base x)) (nxt (base x)) (dat (base x))
+             (hd T :: freed (base x))
              (upd (nret x) (qi T) (S (nret x (qi T)))) (c0 x) (visits x)
              (qlog x ++ [(qi T, dat (base x) (hd T))]) G); rewrite <- ?HT.
     + nochange.
     + nochange.
     + rewrite Hpc; discriminate.
     + apply next_op_not_plink.
-    + rewrite own_next_op'. rewrite OTT in OT. inversion OT; auto.
-    + rewrite own_next_op', OTT. intros n Hn. right. exact Hn.
+    + rewrite own_next_op'. inversion OT; auto.
+    + constructor; auto. apply Fdj. left; reflexivity.
+    + rewrite own_next_op', OTT. intros n [H|[H|H]]; [left; right; exact H|left; left; exact H|right; exact H].
+    + rewrite own_next_op'. intros n H [Hf|Hf].
+      * subst n. inversion OT; auto.
+      * apply (Fdj n); [right; exact H|exact Hf].
     + intros Ht. contradiction.
     + intros q H. right. apply next_op_uses. exact H.
     + apply next_op_qi; auto.
@@ -1336,40 +1447,72 @@ Lemma np_const npr progs x : ireach npr progs x -> np (base x) = npr.
 Proof.
   induction 1 as [|x t R IH]; [reflexivity|]. rewrite lstep_erase. rewrite <- IH.
   unfold step. destruct (pc (thr (base x) t)); try reflexivity.
-  destruct (nxt (base x) (hd (thr (base x) t))); [destruct (_ <? _)|]; reflexivity.
+  - destruct (freed (base x)); reflexivity.
+  - destruct (nxt (base x) (hd (thr (base x) t))); [destruct (_ <? _)|]; reflexivity.
 Qed.
 
 (* ------------------------------------------------------------------ *)
 (* per-producer program order: the values thread t has stored into queue q so
-   far, followed by the values t has still to push to q, are t's program *)
+   far, followed by the values t has still to push to q, form a subsequence of
+   the values t's program pushes to q, in program order (a recycled push that
+   finds no free node pushes nothing, hence subsequence and not equality) *)
+Inductive subseq : list nat -> list nat -> Prop :=
+| sub_nil l : subseq [] l
+| sub_skip a l1 l2 : subseq l1 l2 -> subseq l1 (a :: l2)
+| sub_take a l1 l2 : subseq l1 l2 -> subseq (a :: l1) (a :: l2).
+
+Lemma subseq_refl l : subseq l l.
+Proof. induction l; [apply sub_nil|apply sub_take; auto]. Qed.
+
+Lemma subseq_eq l1 l2 : l1 = l2 -> subseq l1 l2.
+Proof. intros ->. apply subseq_refl. Qed.
+
+Lemma subseq_trans l1 l2 l3 : subseq l1 l2 -> subseq l2 l3 -> subseq l1 l3.
+Proof.
+  intros H12 H23. revert l1 H12. induction H23 as [l3|a l2 l3 H IH|a l2 l3 H IH]; intros l1 H12.
+  - inversion H12. apply sub_nil.
+  - apply sub_skip. apply IH. exact H12.
+  - inversion H12 as [|b k1 k2 H'|b k1 k2 H']; subst.
+    + apply sub_nil.
+    + apply sub_skip. apply IH. exact H'.
+    + apply sub_take. apply IH. exact H'.
+Qed.
+
+Lemma subseq_app_mid A v B : subseq (A ++ B) (A ++ v :: B).
+Proof. induction A as [|a A IH]; cbn; [apply sub_skip; apply subseq_refl|apply sub_take; exact IH]. Qed.
+
 Fixpoint pushvalsq (npr q : nat) (p : list op) : list nat :=
   match p with
   | [] => []
   | OPush q' _ v :: r => if q' mod npr =? q then v :: pushvalsq npr q r else pushvalsq npr q r
-  | _ :: r => pushvalsq npr q r
+  | ORecyc q' v :: r => if q' mod npr =? q then v :: pushvalsq npr q r else pushvalsq npr q r
+  | OPop :: r => pushvalsq npr q r
   end.
 
 Definition pendq (npr q : nat) (T : tst) : list nat :=
-  (if pushing (pc T) && (qi T =? q) then [arg T] else []) ++ pushvalsq npr q (prog T).
+  (if claiming (pc T) && (qi T =? q) then [arg T] else []) ++ pushvalsq npr q (prog T).
 
 Definition tqvals (t q : nat) (l : list (nat * nat * nat)) : list nat :=
   map snd (filter (fun e => Nat.eqb (fst (fst e)) t && Nat.eqb (snd (fst e)) q) l).
 
-Definition PInv (npr : nat) (progs : list (list op)) (x : ist) : Prop :=
-  forall t q, tqvals t q (plog x) ++ pendq npr q (thr (base x) t) = pushvalsq npr q (nth t progs []).
+Definition Xv (npr t q : nat) (x : ist) : list nat := tqvals t q (plog x) ++ pendq npr q (thr (base x) t).
 
-Lemma pend_next_op npr q T : pushing (pc T) = false -> pendq npr q (next_op npr T) = pendq npr q T.
+Definition PInv (npr : nat) (progs : list (list op)) (x : ist) : Prop :=
+  forall t q, subseq (Xv npr t q x) (pushvalsq npr q (nth t progs [])).
+
+Lemma pend_next_op npr q T : pendq npr q (next_op npr T) = pushvalsq npr q (prog T).
 Proof.
-  unfold pendq, next_op. intros E. rewrite E.
-  destruct (prog T) as [|[q' n v|] r]; cbn [pc prog qi arg pushing andb pushvalsq app]; try reflexivity.
-  destruct (q' mod npr =? q); reflexivity.
+  unfold pendq, next_op.
+  destruct (prog T) as [|[q' n v| |q' v] r]; cbn [pc prog qi arg claiming pushing andb pushvalsq app]; try reflexivity;
+    destruct (q' mod npr =? q); reflexivity.
 Qed.
 
 Lemma step_thr_other s u t : t <> u -> thr (fst (step s u)) t = thr s t.
 Proof.
   intros Ne. unfold step. destruct (pc (thr s u)); cbn [fst thr set_thr]; try reflexivity;
     try (apply upd_other; exact Ne).
-  destruct (nxt s (hd (thr s u))); [destruct (_ <? _)|]; cbn [fst thr set_thr]; apply upd_other; exact Ne.
+  - destruct (freed s); cbn [fst thr set_thr]; apply upd_other; exact Ne.
+  - destruct (nxt s (hd (thr s u))); [destruct (_ <? _)|]; cbn [fst thr set_thr]; apply upd_other; exact Ne.
 Qed.
 
 Lemma lstep_plog x u :
@@ -1389,31 +1532,36 @@ Proof.
   unfold tqvals. rewrite filter_app, map_app. cbn. destruct ((t' =? t) && (q' =? q)); reflexivity.
 Qed.
 
-Lemma pinv_step progs x u : PInv (np (base x)) progs x -> PInv (np (base x)) progs (lstep x u).
+Lemma xv_step x u t q : subseq (Xv (np (base x)) t q (lstep x u)) (Xv (np (base x)) t q x).
 Proof.
-  intros P t q. specialize (P t q). rewrite lstep_erase, lstep_plog.
+  unfold Xv. rewrite lstep_erase, lstep_plog.
   destruct (Nat.eq_dec t u) as [<-|Ne].
   - unfold step. remember (thr (base x) t) as T eqn:HT.
-    destruct (pc T) eqn:Hpc; cbn [fst thr set_thr]; rewrite ?upd_same; try (rewrite <- HT; exact P);
-      try (rewrite <- P; unfold pendq; cbn; rewrite Hpc; reflexivity);
-      try (rewrite pend_next_op by (rewrite Hpc; reflexivity); exact P).
-    + rewrite <- P. rewrite tqvals_snoc, Nat.eqb_refl. unfold pendq. cbn. rewrite Hpc. cbn.
+    destruct (pc T) eqn:Hpc; cbn [fst thr set_thr]; rewrite ?upd_same; try (rewrite <- HT; apply subseq_refl);
+      try (apply subseq_eq; unfold pendq; cbn; rewrite ?Hpc; reflexivity);
+      try (apply subseq_eq; rewrite pend_next_op; unfold pendq; rewrite Hpc; reflexivity).
+    + destruct (freed (base x)); cbn [fst thr set_thr]; rewrite upd_same.
+      * rewrite pend_next_op. unfold pendq. rewrite Hpc. cbn [claiming andb].
+        destruct (qi T =? q); [apply subseq_app_mid|apply subseq_refl].
+      * apply subseq_eq. unfold pendq. cbn. rewrite Hpc. reflexivity.
+    + apply subseq_eq. rewrite tqvals_snoc, Nat.eqb_refl. unfold pendq. cbn. rewrite Hpc. cbn.
       rewrite <- app_assoc. reflexivity.
-    + destruct (nxt (base x) (hd T)); [destruct (_ <? _)|]; cbn [fst thr set_thr]; rewrite upd_same.
-      * rewrite <- P. unfold pendq. cbn. rewrite Hpc. reflexivity.
-      * rewrite pend_next_op by (rewrite Hpc; reflexivity). exact P.
-      * rewrite <- P. unfold pendq. cbn. rewrite Hpc. reflexivity.
-  - rewrite step_thr_other by assumption.
+    + destruct (nxt (base x) (hd T)); [destruct (_ <? _)|]; cbn [fst thr set_thr]; rewrite upd_same; apply subseq_eq.
+      * unfold pendq. cbn. rewrite Hpc. reflexivity.
+      * rewrite pend_next_op. unfold pendq. rewrite Hpc. reflexivity.
+      * unfold pendq. cbn. rewrite Hpc. reflexivity.
+  - rewrite step_thr_other by assumption. apply subseq_eq. f_equal.
     destruct (pc (thr (base x) u)); auto. rewrite tqvals_snoc.
-    destruct (Nat.eqb_spec u t); [congruence|]. cbn. rewrite app_nil_r. exact P.
+    destruct (Nat.eqb_spec u t); [congruence|]. cbn. apply app_nil_r.
 Qed.
+
+Lemma pinv_step progs x u : PInv (np (base x)) progs x -> PInv (np (base x)) progs (lstep x u).
+Proof. intros P t q. eapply subseq_trans; [apply xv_step|apply P]. Qed.
 
 Theorem ireach_pinv npr progs x : ireach npr progs x -> PInv npr progs x.
 Proof.
   induction 1 as [|x t R IH].
-  - intros t q. cbn. unfold idle_thread. rewrite pend_next_op; reflexivity.
+  - intros t q. unfold Xv. cbn. unfold idle_thread. rewrite pend_next_op. apply subseq_refl.
   - assert (E := np_const npr progs x R). rewrite <- E in *.
-    assert (E' : np (base (lstep x t)) = np (base x)).
-    { rewrite (np_const (np (base x)) progs (lstep x t)); [reflexivity|]. rewrite E. rewrite E in R. constructor. exact R. }
     apply pinv_step. exact IH.
 Qed.
